@@ -8,12 +8,14 @@ CONSTANTS
   MaxEnv = 3
   MaxRequeue = 1
   MaxOffers = 2
+  MaxSplit = 0
   SkipOccupied = TRUE
   CallbackOwnOnly = TRUE
   RemoveCancels = TRUE
   CycleSkipsLocked = TRUE
   OfferSkipsLocked = TRUE
   OfferSkipsOccupied = FALSE
+  StartRechecks = TRUE
 INVARIANT TypeOK
 INVARIANT AtMostOneNegotiation
 INVARIANT SlotsTrackLive
